@@ -143,7 +143,9 @@ def dfdt_admissible(xs, ys):
     """All knees the documented DFDT loop can return when near-ties are broken either way."""
     n = len(xs)
     g = gradient_float(xs, ys)
-    scale = max(1.0, max(abs(v) for v in g))
+    # RELATIVE to the gradients themselves (an absolute floor of 1.0 made every index admissible on the tiny re-embeddings,
+    # where all gradients are ~2^-34: seeded change C09f)
+    scale = max(abs(v) for v in g) or 1.0
     out = set()
     seen = set()
     stack = [(0, 0, -1)]
